@@ -7,12 +7,14 @@ UNITS = {
     "spec": [TF],
     "handle_a": [TF], "handle_b": [TF], "handle_b2": [TF], "handle_c": [TF], "handle_d": [TF],
     "logger": [TF],
+    "lh": [TF],
     "flw": [()],
     "multi": [()],
     "dispatch": [("async",)],
     "handle_async": [("async",)],
     "handle": [()],
     "builder": [()],
+    "primary": [()],
     "timestamps": [()],
     "dnow": [()],
     "naming": [()],
@@ -23,17 +25,17 @@ UNITS = {
 PROP_UNITS = {
     "C01": [("state", ()), ("handle", ())],
     "C02": [("spec", TF), ("logger", TF), ("handle_c", TF), ("handle_d", TF)],
-    "C04": [("state", ()), ("handle", ()), ("flw", ())],
+    "C04": [("state", ()), ("handle", ()), ("flw", ()), ("primary", ()), ("dispatch", ("async",))],
     "C05": [("handle_a", TF), ("handle_b", TF), ("handle_b2", TF), ("handle_c", TF), ("spec", TF)],
     "C06": [("state", ()), ("timestamps", ()), ("builder", ())],
     "C07": [("state", ()), ("listing", ())],
     "C08": [("state", ())],
     "C09": [("state", ()), ("timestamps", ())],
-    "C13": [("logger", TF), ("flw", ()), ("multi", ())],
+    "C13": [("logger", TF), ("flw", ()), ("multi", ()), ("primary", ()), ("lh", TF)],
     "C14": [("state", ()), ("listing", ()), ("naming", ()), ("timestamps", ())],
     "C15": [("state", ()), ("handle", ()), ("flw", ()), ("dispatch", ("async",)), ("handle_async", ("async",))],
     "C16": [("naming", ()), ("listing", ()), ("state", ()), ("builder", ())],
-    "C18": [("state", ()), ("handle", ()), ("builder", ())],
+    "C18": [("state", ()), ("handle", ()), ("builder", ()), ("lh", TF)],
     "C19": [("state", ()), ("logger", TF), ("multi", ()), ("timestamps", ())],
 }
 
